@@ -29,7 +29,7 @@ def gen_cases(tier, seed, configs):
         for si in range(2):
             sc = (r.choice([0, 1, 2, 2, 3]), r.randrange(1, 10 ** 6), r.choice([1, 2, 4, 16]))
             scheds.append(sc)
-            body += ["mark s%d" % si, "buildtsm bs=%d mode=%d" % (bs, mode), "exec omptsm flags=63 upper=%d sched=%d seed=%d workers=%d" % ((upper,) + sc), "dump tsmvalues"]
+            body += ["mark s%d" % si, "buildtsm bs=%d mode=%d" % (bs, mode), "exec omptsm flags=63 upper=%d sched=%d seed=%d workers=%d" % ((upper,) + sc) + (" cworkers=1" if (sc[2] > 2 and si == 1) else ""), "dump tsmvalues"]
         # the StarPU target/source executor under the mock StarPU runtime
         sc = (r.choice([0, 1, 2, 2, 3]), r.randrange(1, 10 ** 6), r.choice([1, 2, 4, 16]))
         scheds.append(sc)
